@@ -9,19 +9,7 @@ cycles make the assertion fail instead). -/
 
 namespace Polar.BN
 
-def pars (net : Net) (i : ℕ) : List ℕ :=
-  match net[i]? with
-  | some v => v.parents
-  | none => []
-
-def hitB (net : Net) (src i : ℕ) : Bool := (pars net i).contains src
-
-lemma hit_eq (net : Net) (src i : ℕ) :
-    (match net[i]? with
-      | some v => v.parents.contains src
-      | none => false) = hitB net src i := by
-  unfold hitB pars
-  cases net[i]? <;> rfl
+def hitB (net : Net) (src i : ℕ) : Bool := (parentsOf net i).contains src
 
 /-! ### one relaxation pass -/
 
@@ -30,7 +18,8 @@ lemma relax_cons (net : Net) (src : ℕ) (c : ℤ) (cs : List ℤ) (i : ℕ) :
       ((if hitB net src i then c - 1 else c) :: (relax net src cs (i + 1)).1,
        if (hitB net src i && (if hitB net src i then c - 1 else c) == 0) then i :: (relax net src cs (i + 1)).2
        else (relax net src cs (i + 1)).2) := by
-  simp only [relax, hit_eq]
+  unfold hitB
+  rfl
 
 lemma relax_length (net : Net) (src : ℕ) : ∀ (cnt : List ℤ) (i : ℕ), (relax net src cnt i).1.length = cnt.length := by
   intro cnt
@@ -51,8 +40,8 @@ lemma relax_getD (net : Net) (src : ℕ) : ∀ (cnt : List ℤ) (i j : ℕ), j <
     | succ j =>
       simp only [List.getD_cons_succ]
       rw [ih (i + 1) j (by simpa using hj)]
-      congr 3
-      omega
+      have : i + 1 + j = i + (j + 1) := by omega
+      rw [this]
 
 lemma relax_mem (net : Net) (src : ℕ) : ∀ (cnt : List ℤ) (i k : ℕ),
     k ∈ (relax net src cnt i).2 ↔
@@ -67,10 +56,9 @@ lemma relax_mem (net : Net) (src : ℕ) : ∀ (cnt : List ℤ) (i k : ℕ),
         ∃ j, 0 < j ∧ j < (c :: cs).length ∧ k = i + j ∧ hitB net src k = true ∧ (c :: cs).getD j 0 = 1 := by
       rw [ih (i + 1) k]
       constructor
-      · rintro ⟨j, hj, rfl, h1, h2⟩
-        exact ⟨j + 1, by omega, by simpa using hj, by omega, by rwa [show i + 1 + j = i + (j + 1) by omega] at h1,
-          by simpa using h2⟩
-      · rintro ⟨j, hj0, hj, rfl, h1, h2⟩
+      · rintro ⟨j, hj, hk, h1, h2⟩
+        exact ⟨j + 1, by omega, by simpa using hj, by omega, h1, by simpa using h2⟩
+      · rintro ⟨j, hj0, hj, hk, h1, h2⟩
         obtain ⟨j', rfl⟩ : ∃ j', j = j' + 1 := ⟨j - 1, by omega⟩
         exact ⟨j', by simpa using hj, by omega, h1, by simpa using h2⟩
     by_cases hh : hitB net src i = true
@@ -109,23 +97,26 @@ lemma relax_nodup (net : Net) (src : ℕ) : ∀ (cnt : List ℤ) (i : ℕ), (rel
   | cons c cs ih =>
     intro i
     rw [relax_cons]
-    split_ifs
-    · rw [List.nodup_cons]
+    by_cases hc : (hitB net src i && (if hitB net src i then c - 1 else c) == 0) = true
+    · rw [if_pos hc]
+      show (i :: (relax net src cs (i + 1)).2).Nodup
+      rw [List.nodup_cons]
       refine ⟨fun h => ?_, ih (i + 1)⟩
       obtain ⟨j, _, hk, _⟩ := (relax_mem net src cs (i + 1) i).mp h
       omega
-    · exact ih (i + 1)
+    · rw [if_neg hc]
+      exact ih (i + 1)
 
 /-! ### the loop invariant -/
 
 /-- parents of `i` that have been emitted so far -/
-def seen (net : Net) (out : List ℕ) (i : ℕ) : List ℕ := out.filter (fun s => (pars net i).contains s)
+def seen (net : Net) (out : List ℕ) (i : ℕ) : List ℕ := out.filter (fun s => (parentsOf net i).contains s)
 
 structure KInv (net : Net) (q : List ℕ) (cnt : List ℤ) (out : List ℕ) : Prop where
   nodup : (out ++ q).Nodup
   lt : ∀ v ∈ out ++ q, v < net.length
   len : cnt.length = net.length
-  count : ∀ i, i < net.length → cnt.getD i 0 = ((pars net i).length : ℤ) - ((seen net out i).length : ℤ)
+  count : ∀ i, i < net.length → cnt.getD i 0 = ((parentsOf net i).length : ℤ) - ((seen net out i).length : ℤ)
   zero : ∀ v ∈ out ++ q, cnt.getD v 0 = 0
   ok : topoOK net [] out = true
 
@@ -133,9 +124,9 @@ lemma seen_append (net : Net) (out : List ℕ) (s i : ℕ) :
     ((seen net (out ++ [s]) i).length : ℤ) = (seen net out i).length + (if hitB net s i then 1 else 0) := by
   unfold seen hitB
   rw [List.filter_append, List.length_append]
-  by_cases h : (pars net i).contains s = true
-  · simp [List.filter_cons, h]
-  · simp [List.filter_cons, h]
+  by_cases h : s ∈ parentsOf net i
+  · simp [h]
+  · simp [h]
 
 /-- a duplicate-free list of members of `l` that is as long as `l` contains every member of `l` -/
 lemma subset_of_nodup_length {l m : List ℕ} (hm : m.Nodup) (hsub : m ⊆ l) (hlen : l.length ≤ m.length) : l ⊆ m :=
@@ -143,18 +134,18 @@ lemma subset_of_nodup_length {l m : List ℕ} (hm : m.Nodup) (hsub : m ⊆ l) (h
 
 lemma seen_nodup {net : Net} {out : List ℕ} (h : out.Nodup) (i : ℕ) : (seen net out i).Nodup := h.filter _
 
-lemma seen_subset (net : Net) (out : List ℕ) (i : ℕ) : seen net out i ⊆ pars net i := by
+lemma seen_subset (net : Net) (out : List ℕ) (i : ℕ) : seen net out i ⊆ parentsOf net i := by
   intro x hx
   have := (List.mem_filter.mp hx).2
   simpa using this
 
 /-- a variable whose counter is 0 has all its parents in `out` -/
 lemma parents_seen {net : Net} {q : List ℕ} {cnt : List ℤ} {out : List ℕ} (h : KInv net q cnt out)
-    {v : ℕ} (hv : v ∈ out ++ q) : pars net v ⊆ out := by
+    {v : ℕ} (hv : v ∈ out ++ q) : parentsOf net v ⊆ out := by
   have hout : out.Nodup := (List.nodup_append.mp h.nodup).1
   have h0 := h.zero v hv
   rw [h.count v (h.lt v hv)] at h0
-  have hlen : (pars net v).length ≤ (seen net out v).length := by omega
+  have hlen : (parentsOf net v).length ≤ (seen net out v).length := by omega
   intro p hp
   have := subset_of_nodup_length (seen_nodup hout v) (seen_subset net out v) hlen hp
   exact (List.mem_filter.mp this).1
@@ -163,25 +154,22 @@ lemma parents_seen {net : Net} {q : List ℕ} {cnt : List ℤ} {out : List ℕ} 
 lemma not_parent_of_zero {net : Net} {q : List ℕ} {cnt : List ℤ} {out : List ℕ} {s : ℕ}
     (h : KInv net (s :: q) cnt out) {v : ℕ} (hv : v ∈ out ++ s :: q) : hitB net s v = false := by
   by_contra hh
-  have hh : (pars net v).contains s = true := by simpa [hitB] using hh
-  have hs : s ∈ pars net v := by simpa using hh
+  have hh : (parentsOf net v).contains s = true := by simpa [hitB] using hh
+  have hs : s ∈ parentsOf net v := by simpa using hh
   have := parents_seen h hv hs
   have hnd := h.nodup
   rw [List.nodup_append] at hnd
   exact hnd.2.2 s this s List.mem_cons_self rfl
 
 lemma topoOK_append (net : Net) (s : ℕ) : ∀ (l done : List ℕ),
-    topoOK net done (l ++ [s]) = (topoOK net done l &&
-      (match net[s]? with
-       | some var => var.parents.all (fun p => (l.reverse ++ done).contains p)
-       | none => false)) := by
+    topoOK net done (l ++ [s]) = (topoOK net done l && parentsOK net (l.reverse ++ done) s) := by
   intro l
   induction l with
   | nil => intro done; simp [topoOK]
   | cons v l ih =>
     intro done
     simp only [List.cons_append, topoOK, ih (v :: done), List.reverse_cons, List.append_assoc,
-      List.singleton_append, Bool.and_assoc]
+      List.singleton_append, Bool.and_assoc, List.nil_append]
 
 lemma kinv_step {net : Net} {s : ℕ} {q : List ℕ} {cnt : List ℤ} {out : List ℕ}
     (h : KInv net (s :: q) cnt out) :
@@ -191,10 +179,11 @@ lemma kinv_step {net : Net} {s : ℕ} {q : List ℕ} {cnt : List ℤ} {out : Lis
   have hnd := h.nodup
   have hmem_old : ∀ k, k ∈ (relax net s cnt 0).2 → k ∉ out ++ s :: q ∧ k < net.length := by
     intro k hk
-    obtain ⟨j, hj, rfl, _, h2⟩ := (relax_mem net s cnt 0 k).mp hk
-    simp only [Nat.zero_add] at *
+    obtain ⟨j, hj, hkj, _, h2⟩ := (relax_mem net s cnt 0 k).mp hk
+    have hkj : k = j := by omega
+    subst hkj
     refine ⟨fun hin => ?_, by rw [← h.len]; exact hj⟩
-    have := h.zero j hin
+    have := h.zero k hin
     rw [h2] at this
     exact one_ne_zero this
   refine ⟨?_, ?_, ?_, ?_, ?_, ?_⟩
@@ -220,16 +209,19 @@ lemma kinv_step {net : Net} {s : ℕ} {q : List ℕ} {cnt : List ℤ} {out : Lis
       rw [relax_getD net s cnt 0 v (by rw [h.len]; exact h.lt v hv'), h.zero v hv', Nat.zero_add,
         not_parent_of_zero h hv']
       simp
-    · obtain ⟨j, hj, rfl, h1, h2⟩ := (relax_mem net s cnt 0 v).mp hv
-      simp only [Nat.zero_add] at *
-      rw [relax_getD net s cnt 0 j hj, h2, Nat.zero_add, h1]
+    · obtain ⟨j, hj, hkj, h1, h2⟩ := (relax_mem net s cnt 0 v).mp hv
+      have hkj : v = j := by omega
+      subst hkj
+      rw [relax_getD net s cnt 0 v hj, h2, Nat.zero_add, h1]
       simp
   · rw [topoOK_append, h.ok, Bool.true_and]
     have hp := parents_seen h hs_mem
-    unfold pars at hp
+    unfold parentsOf at hp
+    unfold parentsOK
     rw [List.getElem?_eq_getElem hsl] at hp ⊢
     simp only [List.all_eq_true, List.contains_iff_mem, List.append_nil, List.mem_reverse]
-    exact fun p hp' => hp hp'
+    intro p hp'
+    exact hp hp'
 
 lemma kahn_inv (net : Net) : ∀ (fuel : ℕ) (q : List ℕ) (cnt : List ℤ) (out : List ℕ), KInv net q cnt out →
     ∃ q' cnt', KInv net q' cnt' (kahn net fuel q cnt out) := by
@@ -245,9 +237,7 @@ lemma kahn_inv (net : Net) : ∀ (fuel : ℕ) (q : List ℕ) (cnt : List ℤ) (o
       exact ih _ _ _ (kinv_step h)
 
 lemma kinv_init (net : Net) :
-    KInv net ((List.range net.length).filter (fun i => match net[i]? with
-        | some v => v.parents.isEmpty
-        | none => false))
+    KInv net ((List.range net.length).filter (fun i => (parentsOf net i).isEmpty))
       (net.map (fun v => (v.parents.length : ℤ))) [] := by
   refine ⟨?_, ?_, by simp, ?_, ?_, rfl⟩
   · simpa using (List.nodup_range (n := net.length)).filter _
@@ -255,11 +245,12 @@ lemma kinv_init (net : Net) :
     simp only [List.nil_append, List.mem_filter, List.mem_range] at hv
     exact hv.1
   · intro i hi
-    simp only [seen, List.filter_nil, List.length_nil, Nat.cast_zero, sub_zero, pars,
+    simp only [seen, List.filter_nil, List.length_nil, Nat.cast_zero, sub_zero, parentsOf,
       List.getD_eq_getElem?_getD, List.getElem?_map, List.getElem?_eq_getElem hi, Option.map_some, Option.getD_some]
   · intro v hv
     simp only [List.nil_append, List.mem_filter, List.mem_range] at hv
     obtain ⟨hv, he⟩ := hv
+    unfold parentsOf at he
     rw [List.getElem?_eq_getElem hv] at he
     simp only [List.getD_eq_getElem?_getD, List.getElem?_map, List.getElem?_eq_getElem hv, Option.map_some,
       Option.getD_some]
@@ -268,19 +259,22 @@ lemma kinv_init (net : Net) :
 
 /-- **Kahn's algorithm as coded returns a topological order whenever its final assertion holds.** -/
 theorem topoOrder_isTopo (net : Net) (o : List ℕ) (h : topoOrder net = some o) : isTopo net o = true := by
+  obtain ⟨q', cnt', inv⟩ := kahn_inv net (net.length + 1) _ _ _ (kinv_init net)
   unfold topoOrder at h
   simp only at h
   split_ifs at h with hlen
   injection h with h
-  obtain ⟨q', cnt', inv⟩ := kahn_inv net (net.length + 1) _ _ _ (kinv_init net)
   rw [h] at inv hlen
   have hnd : o.Nodup := (List.nodup_append.mp inv.nodup).1
   simp only [isTopo, Bool.and_eq_true, beq_iff_eq, List.all_eq_true, decide_eq_true_eq, nodupB_iff]
   exact ⟨⟨⟨hlen, fun v hv => inv.lt v (List.mem_append_left _ hv)⟩, hnd⟩, inv.ok⟩
 
-example : topoOrder exNetT = some [1, 0] ∧ isTopo exNetT [1, 0] = true := by decide +kernel
-  where exNetT : Net :=
-    [ { name := "X", domain := ["0", "1"], parents := [1], cpt := [[1/2, 1/2], [1/5, 4/5]] },
-      { name := "A", domain := ["a", "b"], parents := [], cpt := [[1/4, 3/4]] } ]
+/-- a network declared child-first -/
+def exNetT : Net :=
+  [ { name := "X", domain := ["0", "1"], parents := [1], cpt := [[1/2, 1/2], [1/5, 4/5]] },
+    { name := "A", domain := ["a", "b"], parents := [], cpt := [[1/4, 3/4]] } ]
+
+example : topoOrder exNetT = some [1, 0] := by decide +kernel
+example : isTopo exNetT [1, 0] = true := topoOrder_isTopo exNetT [1, 0] (by decide +kernel)
 
 end Polar.BN
